@@ -406,6 +406,66 @@ def check_cosetfold(res, facts):
             rule.undecided(key, "multiplier exponent not polynomial: %s" % ex, fn.loc)
 
 
+# ---- R-VANISHDEP -------------------------------------------------------------------------------------------
+
+def check_vanishdep(res, facts):
+    """The vanishing polynomial of a domain is X^size - offset^size (EvaluationDomain::vanishing_polynomial).  A function
+    that multiplies / divides by "the domain's vanishing polynomial" but observes only `size()` of its domain argument
+    computes with X^size - 1 for every domain, which is wrong for cosets: it must read the offset (or the constant
+    term offset^size, or the vanishing polynomial itself) and that value must reach the coefficient arithmetic."""
+    from rules.c07 import E, show, A, C
+    from arklib.facts import closure_args
+    rule = res.rule("R-VANISHDEP", "mul_by_vanishing_poly / divide_by_vanishing_poly use the domain's constant term offset^size, not only its size", 2)
+    for name in ("mul_by_vanishing_poly", "divide_by_vanishing_poly"):
+        fs = [f for f in facts.fns(unit="ws", crate="ark_poly") if f.kind != "Closure" and f.name == name and "univariate::dense" in f.id]
+        key = "ark_poly|DensePolynomial::%s" % name
+        if not fs:
+            rule.bad(key, "anchor missing")
+            continue
+        f = fs[0]
+        observed = sorted({t["f"].get("name") for _, t in f.calls() if t["args"] and E(f, t["args"][0]) == A(2) and (t["f"].get("trait") or "").endswith("EvaluationDomain")})
+        uses = [n for n in observed if n in ("coset_offset_pow_size", "coset_offset", "vanishing_polynomial", "evaluate_vanishing_polynomial")]
+        if not uses:
+            rule.bad(key, "the only property of the domain that is read is %s: the polynomial used is X^size - 1 for every domain, but a coset domain's vanishing polynomial is X^size - offset^size (EvaluationDomain::vanishing_polynomial), so the result is wrong for cosets" % observed, f.loc)
+            continue
+        # the constant must weight the coefficient updates: mul: s -= c0*c ; divide: quotient block i weighted by c0^i
+        # (running power started at c0, advanced by c0), remainder += c0 * quotient
+        from rules.c07 import norm
+        EM = lambda f_, o_: norm(DF.expr(f_, o_, depth=40, mut_as_phi=True))
+        c0 = C("coset_offset_pow_size", A(2))
+        problems = []
+        fes = [(bb, t) for bb, t in f.calls() if t["f"].get("name") == "for_each"]
+        kinds = []
+        for bb, t in fes:
+            env = EM(f, t["args"][1])
+            cap = env[2][0] if isinstance(env, tuple) and env[0] == "agg" and len(env[2]) == 1 else None
+            op = None
+            for cid in closure_args(f, t):
+                clo = facts.get(cid, f.unit)
+                if clo is None:
+                    continue
+                for _, ct in clo.calls():
+                    if ct["f"].get("name") in ("add_assign", "sub_assign"):
+                        a0, a1 = E(clo, ct["args"][0]), E(clo, ct["args"][1])
+                        if a0 == A(2, "0") and a1 in (C("mul", A(1, "0"), A(2, "1")), C("mul", A(2, "1"), A(1, "0"))):
+                            op = ct["f"].get("name")
+            if cap == c0:
+                kinds.append((op, "c0"))
+            elif isinstance(cap, tuple) and cap[0] == "phi":
+                inits = [EM(f, d[3]["r"]["o"]) for d in f.defs().get(cap[1], []) if d[2] == "assign" and d[3]["r"]["k"] == "use"]
+                steps = [EM(f, t2["args"][1]) for _, t2 in f.calls() if t2["f"].get("name") == "mul_assign" and EM(f, t2["args"][0]) == cap]
+                kinds.append((op, "running" if inits == [c0] and steps == [c0] else "running?%s/%s" % ([show(x) for x in inits], [show(x) for x in steps])))
+            else:
+                kinds.append((op, show(cap) if cap is not None else None))
+        if name == "mul_by_vanishing_poly":
+            if kinds != [("sub_assign", "c0")]:
+                problems.append("coefficient update is %s, expected shifted[i] -= offset^size * coeff[i]" % kinds)
+        else:
+            if kinds != [("add_assign", "running"), ("add_assign", "c0")]:
+                problems.append("updates are %s, expected quotient += (running power offset^(size*i)) * block_i and remainder += offset^size * quotient" % kinds)
+        (rule.bad if problems else rule.ok)(key, "; ".join(problems) if problems else ("shifted - offset^size * p" if name.startswith("mul") else "quotient blocks weighted by offset^(size*i); remainder = low part + offset^size * quotient"), f.loc)
+
+
 def run(ctx, res):
     facts = ctx.facts(["ws"])
     res.analysed = facts.stats()
@@ -414,6 +474,7 @@ def run(ctx, res):
     check_div(res, facts)
     lincomb.check_poly_ops(res, facts)
     check_cosetfold(res, facts)
+    check_vanishdep(res, facts)
     return {
         "level": "other",
         "explanation": "Typestate (must-pass-through) analysis over the MIR of ark-poly: every write access to a dense polynomial's coefficient vector must be followed on all paths by the strip-leading-zeros loop; computed sparse terms must be pushed under a non-zero guard; structure of division; operators defined through other operators evaluated symbolically as linear combinations of their operands. Does NOT decide coefficient-level results (loops over run-time lengths), FFT multiplication or evaluation.",
